@@ -1088,8 +1088,11 @@ class Linter:
             fname=fname,
             config=config,
         )
-        # Get rules as appropriate
-        rule_pack = self.get_rulepack(config=config)
+        # Get rules as appropriate. NOTE: We use the config of the parsed
+        # string, because that includes any inline (`-- sqlfluff:`) config
+        # directives from the string itself, just as it does when linting
+        # a file by path.
+        rule_pack = self.get_rulepack(config=parsed.config)
         # Lint the file and return the LintedFile
         return self.lint_parsed(
             parsed,
